@@ -14,8 +14,8 @@ RULE = ("job = seed -> scenario (SSLv3..TLS1.2, every RSA-key-exchange "
         "suite, +- EtM, +- EMS, +- client auth, client max version above or "
         "equal to the negotiated one); the consistent byzantine client "
         "replaces encryptedPreMasterSecret by a member of each defect class "
-        "in turn (same seed => same server randomness): valid padding with "
-        "another premaster; bad first byte; bad block type; zero inside the "
+        "in turn (same seed => same server randomness) and keeps using the "
+        "plaintext it sent as premaster (a consistent liar); bad first byte; bad block type; zero inside the "
         "first 8 padding bytes; no separator; separator too early; payload "
         "length 0 / 1 / 47 / 49 / maximal; wrong version bytes (+1, -1, "
         "0x0000, 0xffff); and the publicly invalid ones (value >= n, "
@@ -38,12 +38,13 @@ LEVEL_NOTE = ("Trusted: interposer; EM blocks are built and RSA-encrypted "
               "with the server's public key by the harness (pow).")
 BUDGET = {"quick": 60, "thorough": 1200}
 CHUNK = 4
-CLASSES = ["valid_other", "bad_first_byte", "bad_block_type", "zero_in_ps",
+CLASSES = ["bad_first_byte", "bad_block_type", "zero_in_ps",
            "no_separator", "sep_early", "len0", "len1", "len47", "len49",
-           "lenmax", "ver_plus", "ver_minus", "ver_zero", "ver_ffff",
+           "lenmax", "ver_plus", "ver_below", "ver_between", "ver_negotiated",
+           "ver_zero", "ver_ffff",
            "ge_n", "short_ct", "long_ct"]
 PUBLIC = ("ge_n", "short_ct", "long_ct")
-PROBES = CLASSES + ["sslv3", "tls10", "tls11", "tls12", "client_auth", "etm",
+PROBES = [c for c in CLASSES] + ["sslv3", "tls10", "tls11", "tls12", "client_auth", "etm",
                     "no_ems", "client_max_higher"]
 COMPONENTS_REAL = ["tlslite server: RSAKeyExchange.processClientKeyExchange,"
                    " RSAKey.decrypt (implicit rejection), Finished handling"]
@@ -59,8 +60,12 @@ def plan(tier, base_seed):
     return jobs
 
 
-def craft(cls, n, e, k, chver, rng):
-    """Return ciphertext bytes for defect class cls."""
+def craft(cls, n, e, k, chver, rng, negver=None):
+    """Return (ciphertext bytes, premaster secret the client keeps using)
+    for defect class cls.  The client is *consistent*: it derives its keys
+    from the very plaintext it put into the (malformed) encryption block, so
+    a server that wrongly accepted the block would complete the handshake."""
+    used = [None]
     def nz(cnt):
         return bytes(rng.randrange(1, 256) for _ in range(cnt))
 
@@ -69,15 +74,14 @@ def craft(cls, n, e, k, chver, rng):
         if ln >= 2:
             b[0] = chver[0] if v0 is None else v0
             b[1] = chver[1] if v1 is None else v1
+        used[0] = bytes(b)
         return bytes(b)
 
     def em(m, first=0, bt=2, ps=None, sep=True):
         pslen = k - 3 - len(m) if sep else k - 2 - len(m)
         p = nz(pslen) if ps is None else ps
         return bytes([first, bt]) + p + (b"\x00" if sep else b"") + m
-    if cls == "valid_other":
-        E = em(pms())
-    elif cls == "bad_first_byte":
+    if cls == "bad_first_byte":
         E = em(pms(), first=1)
     elif cls == "bad_block_type":
         E = em(pms(), bt=1)
@@ -87,6 +91,7 @@ def craft(cls, n, e, k, chver, rng):
         E = em(pms(), ps=bytes(ps))
     elif cls == "no_separator":
         E = bytes([0, 2]) + nz(k - 2)
+        used[0] = E[-48:]
     elif cls == "sep_early":
         ps = bytearray(nz(k - 3 - 48))
         ps[rng.randrange(1, 7)] = 0
@@ -103,26 +108,39 @@ def craft(cls, n, e, k, chver, rng):
         E = em(pms(ln=k - 11))
     elif cls == "ver_plus":
         E = em(pms(chver[0], (chver[1] + 1) & 0xff))
-    elif cls == "ver_minus":
-        E = em(pms(chver[0], (chver[1] - 1) & 0xff if chver[1] > 0 else 9))
+    elif cls == "ver_below":
+        lo = min(chver, negver)
+        E = em(pms(lo[0], lo[1] - 1 if lo[1] > 0 else 9))
+    elif cls == "ver_between":
+        if chver[1] - negver[1] < 2:
+            return None, None
+        E = em(pms(chver[0], negver[1] + 1 + rng.randrange(
+            chver[1] - negver[1] - 1)))
+    elif cls == "ver_negotiated":
+        if tuple(negver) == tuple(chver):
+            return None, None
+        E = em(pms(negver[0], negver[1]))
     elif cls == "ver_zero":
         E = em(pms(0, 0))
     elif cls == "ver_ffff":
         E = em(pms(0xff, 0xff))
     elif cls == "ge_n":
-        return (n + 1 + rng.randrange(1000)).to_bytes(k, "big") \
-            if (n + 1001).bit_length() <= 8 * k else b"\xff" * k
+        # c + n decrypts to the same block if the range check is missing
+        c = pow(int.from_bytes(em(pms()), "big"), e, n)
+        if (c + n).bit_length() <= 8 * k:
+            return (c + n).to_bytes(k, "big"), used[0]
+        return b"\xff" * k, used[0]
     elif cls == "short_ct":
         c = pow(int.from_bytes(em(pms()), "big"), e, n)
-        return c.to_bytes(k, "big")[1:]
+        return c.to_bytes(k, "big")[1:], used[0]
     elif cls == "long_ct":
         c = pow(int.from_bytes(em(pms()), "big"), e, n)
-        return b"\x00" + c.to_bytes(k, "big")
+        return b"\x00" + c.to_bytes(k, "big"), used[0]
     else:
         raise ValueError(cls)
     assert len(E) == k, (cls, len(E), k)
     c = pow(int.from_bytes(E, "big"), e, n)
-    return c.to_bytes(k, "big")
+    return c.to_bytes(k, "big"), used[0]
 
 
 def one_run(seed, sc, cls, chver_holder):
@@ -138,20 +156,31 @@ def one_run(seed, sc, cls, chver_holder):
     fired = []
 
     def rule(msg, c):
-        name = type(msg).__name__
-        if name == "ClientHello":
+        if type(msg).__name__ == "ClientHello":
             chver_holder[0] = tuple(msg.client_version)
-        if name == "ClientKeyExchange" and cls is not None and \
-                getattr(msg, "encryptedPreMasterSecret", None) is not None:
-            msg.encryptedPreMasterSecret = bytearray(
-                craft(cls, n, e, k, chver_holder[0], rng))
-            fired.append(cls)
-            return [msg]
         return None
     byz.Interposer(pair.c.conn, [rule])
+    from tlslite.keyexchange import RSAKeyExchange
+    orig_psk = RSAKeyExchange.__dict__["processServerKeyExchange"]
+    cnode = pair.c.node
+
+    def processServerKeyExchange(self, srvPublicKey, serverKeyExchange):
+        if kernel.CTX.node is not cnode or cls is None:
+            return orig_psk(self, srvPublicKey, serverKeyExchange)
+        ct, pm = craft(cls, n, e, k, tuple(self.clientHello.client_version),
+                       rng, tuple(self.serverHello.server_version))
+        if ct is None:
+            return orig_psk(self, srvPublicKey, serverKeyExchange)
+        self.encPremasterSecret = bytearray(ct)
+        fired.append(cls)
+        return bytearray(pm if pm is not None else bytes(48))
+    RSAKeyExchange.processServerKeyExchange = processServerKeyExchange
     st = taps.SendTap(pair.s.conn)
     mt = taps.MsgTap(pair.s.conn)
-    oc, os_, status = pair.handshake()
+    try:
+        oc, os_, status = pair.handshake()
+    finally:
+        RSAKeyExchange.processServerKeyExchange = orig_psk
     # server's outgoing records after the client's CKE was on the wire: the
     # server sends nothing between ServerHelloDone and its reaction, so the
     # records after the ServerHelloDone flight are the reaction
@@ -220,8 +249,10 @@ def run(job, streams=None):
         if sok:
             v("malformed_premaster_accepted", cls, "server completed the "
               "handshake for defect class %s" % cls)
-    secret = {c: t for c, t in traces.items() if c not in PUBLIC}
-    ref_cls = "valid_other" if "valid_other" in secret else \
+            continue
+    secret = {c: t for c, t in traces.items() if c not in PUBLIC
+              and c != "ver_negotiated"}
+    ref_cls = "bad_block_type" if "bad_block_type" in secret else \
         (sorted(secret)[0] if secret else None)
     if ref_cls:
         ref = secret[ref_cls]
@@ -247,4 +278,5 @@ def _res(job, ch, sc, viol, probes, nontrivial, traces, faults=None):
             "states": ["%s/%s" % (sc["version"], sc["suite"])],
             "streams": ch.streams(), "inconclusive": False,
             "sample": {"scenario": sc,
-                       "trace_of_valid_other": traces.get("valid_other")}}
+                       "trace_of_bad_block_type":
+                       traces.get("bad_block_type")}}
